@@ -759,8 +759,9 @@ package node
 //@   ensures [success_only_when_unloaded_or_signalled] result == nil ==> old(a.state) == 1 || recvcount(old(a.stopped)) == old(recvcount(a.stopped)) + 1
 //@   ensures [already_unloaded_is_success_without_effect] old(a.state) == 1 ==> result == nil && (forall k gen.PID :: exitAsked(k) == old(exitAsked(k)) && killAsked(k) == old(killAsked(k)))
 //@   ensures [busy_or_bad_state_is_refused_without_effect] !force && old(a.state) != 1 && old(a.state) != 2 ==> result != nil && (old(a.state) == 3 ==> result == gen.ErrApplicationStopping) && a.mode == old(a.mode) && (forall k gen.PID :: exitAsked(k) == old(exitAsked(k)) && killAsked(k) == old(killAsked(k)))
-//@   ensures [graceful_stop_asks_every_member_to_exit] !force && old(a.state) == 2 ==> (forall k gen.PID :: old(isMember(a, k)) ==> exitAsked(k) == old(exitAsked(k)) + 1) && a.reason == gen.TerminateReasonShutdown
+//@   ensures [graceful_stop_asks_every_member_to_exit] !force && old(a.state) == 2 ==> (forall k gen.PID :: old(isMember(a, k)) ==> exitAsked(k) == old(exitAsked(k)) + 1) && a.reason == gen.TerminateReasonShutdown && a.mode == 1
 //@   ensures [forced_stop_kills_every_member] force && old(a.state) != 1 ==> (forall k gen.PID :: old(isMember(a, k)) ==> killAsked(k) == old(killAsked(k)) + 1) && a.reason == gen.TerminateReasonKill
+//@   ensures [mode_lowered_so_that_member_exits_do_not_retrigger_the_rule] old(a.state) == 2 ==> a.mode == 1
 //@   ensures [timeout_is_reported] result != nil && old(a.state) == 2 ==> result == gen.ErrApplicationStopping
 
 // ---------------------------------------------------------------------------------------------
